@@ -436,4 +436,107 @@ example : ∃ c, p2kND (ofFn [3, 2, 2] fun _ => (1 / 2 : ℚ)) = .ok c ∧ c.sha
   obtain ⟨c, hc, hs, _⟩ := p2k_units (ofFn [3, 2, 2] fun _ => (1 / 2 : ℚ)) (o := [3, 2]) (n := 2) rfl
   exact ⟨c, hc, hs⟩
 
+/-! ## added after the model-mutant round: `Transformation.apply` on an OBJECT — which product is
+formed for which block (unit rank of the class for the primary data, auxiliary rank for the derived
+data, rank 1 and the inverse transpose for the dual data), in every broadcast mode -/
+
+/-- the three products of `Transformation.apply(obj, broadcast=mode)` -/
+theorem apply_blocks {X Y : Obj K} {A AinvT : ND K} {mode : Bcast} (h : X.apply A AinvT mode = .ok Y) :
+    Y.kind = X.kind ∧ matrixProduct X.proj A X.kind.unitNdims 2 mode = .ok Y.proj ∧
+    (X.aux = none → Y.aux = none) ∧
+    (∀ a, X.aux = some a → ∃ a', matrixProduct a A X.kind.auxNdims 2 mode = .ok a' ∧ Y.aux = some a') ∧
+    (X.dual = none → Y.dual = none) ∧
+    (∀ d, X.dual = some d → ∃ d', matrixProduct d AinvT 1 2 mode = .ok d' ∧ Y.dual = some d') := by
+  unfold Obj.apply at h
+  split at h
+  · cases h
+  · rename_i p hp
+    split at h
+    · cases h
+    · rename_i a' ha'
+      split at h
+      · cases h
+      · rename_i d' hd'
+        cases h
+        refine ⟨rfl, hp, ?_, ?_, ?_, ?_⟩
+        · intro hn; rw [hn] at ha'; simpa using ha'.symm
+        · intro a hsome
+          rw [hsome] at ha'
+          simp only at ha'
+          cases hm : matrixProduct a A X.kind.auxNdims 2 mode with
+          | error e => rw [hm] at ha'; simp [Except.map] at ha'
+          | ok a'' => rw [hm] at ha'; simp [Except.map] at ha'; exact ⟨a'', rfl, ha'.symm⟩
+        · intro hn; rw [hn] at hd'; simpa using hd'.symm
+        · intro d hsome
+          rw [hsome] at hd'
+          simp only at hd'
+          cases hm : matrixProduct d AinvT 1 2 mode with
+          | error e => rw [hm] at hd'; simp [Except.map] at hd'
+          | ok d'' => rw [hm] at hd'; simp [Except.map] at hd'; exact ⟨d'', rfl, hd'.symm⟩
+
+/-- `Transformation.apply(obj, broadcast=mode)` unit by unit: class kept, and at every result index
+`bix` every block is the unit product of the units that `unitIx1/2` select — primary data with the
+class's unit rank, derived data of segments / tangent vectors as 2×n matrices, polygon edges as a
+stack of 2×n matrices (the edge axis is NOT a composite axis), dual data as rows times the supplied
+inverse transpose -/
+theorem apply_units (mode : Bcast) {X Y : Obj K} {A AinvT : ND K} {o₁ o₂ O : List ℕ} {n : ℕ}
+    (hA : A.shape = o₂ ++ [n, n]) (hAi : AinvT.shape = o₂ ++ [n, n])
+    (hO : outerShape mode o₁ o₂ = some O) (h : X.apply A AinvT mode = .ok Y) :
+    Y.kind = X.kind ∧
+    (X.kind = .point → X.proj.shape = o₁ ++ [n] →
+      Y.proj.shape = O ++ [n] ∧ ∀ bix, Valid O bix →
+        rowAt Y.proj n bix =
+          Matrix.vecMul (rowAt X.proj n (unitIx1 mode o₁ o₂ bix)) (matAt A n n (unitIx2 mode o₁ o₂ bix))) ∧
+    (X.kind ≠ .point → ∀ p, X.proj.shape = o₁ ++ [p, n] →
+      Y.proj.shape = O ++ [p, n] ∧ ∀ bix, Valid O bix →
+        matAt Y.proj p n bix =
+          matAt X.proj p n (unitIx1 mode o₁ o₂ bix) * matAt A n n (unitIx2 mode o₁ o₂ bix)) ∧
+    (X.kind = .segment ∨ X.kind = .tangent → ∀ a, X.aux = some a → a.shape = o₁ ++ [2, n] →
+      ∃ a', Y.aux = some a' ∧ a'.shape = O ++ [2, n] ∧ ∀ bix, Valid O bix →
+        matAt a' 2 n bix = matAt a 2 n (unitIx1 mode o₁ o₂ bix) * matAt A n n (unitIx2 mode o₁ o₂ bix)) ∧
+    (X.kind = .polygon → ∀ a k, X.aux = some a → a.shape = o₁ ++ [k, 2, n] →
+      ∃ a', Y.aux = some a' ∧ a'.shape = O ++ [k, 2, n] ∧ ∀ bix, Valid O bix → ∀ v,
+        stackAt a' k 2 n bix v =
+          stackAt a k 2 n (unitIx1 mode o₁ o₂ bix) v * matAt A n n (unitIx2 mode o₁ o₂ bix)) ∧
+    (∀ d, X.dual = some d → d.shape = o₁ ++ [n] →
+      ∃ d', Y.dual = some d' ∧ d'.shape = O ++ [n] ∧ ∀ bix, Valid O bix →
+        rowAt d' n bix =
+          Matrix.vecMul (rowAt d n (unitIx1 mode o₁ o₂ bix)) (matAt AinvT n n (unitIx2 mode o₁ o₂ bix))) := by
+  obtain ⟨hk, hp, -, haux, -, hdual⟩ := apply_blocks h
+  refine ⟨hk, ?_, ?_, ?_, ?_, ?_⟩
+  · intro hpt hs
+    rw [hpt] at hp
+    obtain ⟨c, hc, hcs, hcg⟩ := matrixProduct_units_12 mode X.proj A hs hA hO
+    rw [show Kind.unitNdims .point = 1 from rfl, hc] at hp
+    cases hp
+    exact ⟨hcs, hcg⟩
+  · intro hnp p hs
+    have hu : X.kind.unitNdims = 2 := by cases hX : X.kind <;> simp_all [Kind.unitNdims]
+    rw [hu] at hp
+    obtain ⟨c, hc, hcs, hcg⟩ := matrixProduct_units_22 mode X.proj A hs hA hO
+    rw [hc] at hp
+    cases hp
+    exact ⟨hcs, hcg⟩
+  · intro hst a ha hs
+    obtain ⟨a', hm, hY⟩ := haux a ha
+    have hu : X.kind.auxNdims = 2 := by rcases hst with h | h <;> rw [h] <;> rfl
+    rw [hu] at hm
+    obtain ⟨c, hc, hcs, hcg⟩ := matrixProduct_units_22 mode a A hs hA hO
+    rw [hc] at hm
+    cases hm
+    exact ⟨_, hY, hcs, hcg⟩
+  · intro hpoly a k ha hs
+    obtain ⟨a', hm, hY⟩ := haux a ha
+    rw [hpoly, show Kind.auxNdims .polygon = 3 from rfl] at hm
+    obtain ⟨c, hc, hcs, hcg⟩ := matrixProduct_units_32 mode a A hs hA hO
+    rw [hc] at hm
+    cases hm
+    exact ⟨_, hY, hcs, hcg⟩
+  · intro d hd hs
+    obtain ⟨d', hm, hY⟩ := hdual d hd
+    obtain ⟨c, hc, hcs, hcg⟩ := matrixProduct_units_12 mode d AinvT hs hAi hO
+    rw [hc] at hm
+    cases hm
+    exact ⟨_, hY, hcs, hcg⟩
+
 end GT.C04
